@@ -4,6 +4,8 @@
 mod c14;
 mod c04;
 mod c07;
+mod c10;
+mod c11;
 mod c15;
 mod gen;
 mod pngbuild;
@@ -23,6 +25,12 @@ fn main() {
         std::process::exit(2);
     }
     let prop = argv[1].clone();
+    if prop == "summ" {
+        // debugging aid: pngv summ <optbits> <tbits> <hex>
+        let o = streamrun::Opts::from_bits(argv[2].parse().unwrap());
+        println!("{}", readerrun::summarize(&util::unhex(&argv[4]), &[0], o, argv[3].parse().unwrap()).text());
+        return;
+    }
     let mut a = Args { tier: "quick".into(), seed: 1, out: "out".into(), replay: None, scale: 1 };
     let mut i = 2;
     while i < argv.len() {
@@ -54,6 +62,8 @@ fn main() {
             "C15" => c15::replay(case),
             "C04" => c04::replay(case),
             "C07" => c07::replay(case),
+            "C10" => c10::replay(case),
+            "C11" => c11::replay(case),
             _ => "unknown-property".to_string(),
         };
         println!("{}", r);
@@ -64,6 +74,8 @@ fn main() {
         "C15" => c15::run(&a),
         "C04" => c04::run(&a),
         "C07" => c07::run(&a),
+        "C10" => c10::run(&a),
+        "C11" => c11::run(&a),
         _ => {
             eprintln!("unknown property {}", prop);
             std::process::exit(2);
